@@ -35,7 +35,7 @@ def dec(d, n, name, canonical=False):
     v = 0
     t = ''
     for i in range(n):
-        x = d.int(1 if (canonical and n > 1 and i == 0) else 0, 9, '%s%d' % (name, i))
+        x = d.int(1 if (canonical and n > 1 and i == 0) else 0, 2 if (canonical and n == 3 and i == 0) else 9, '%s%d' % (name, i))
         v = v * 10 + x
         t = t + chr(48 + x)
     return v, t
@@ -44,7 +44,7 @@ def dec(d, n, name, canonical=False):
 def hexglyph(d, name):
     """one symbolic hexadecimal glyph out of 0-9 A-F a-f -> (value, character)"""
     w = d.int(0, 21, name)
-    return w - 6 * (w // 16), chr(48 + w + 7 * ((w + 6) // 16) + 26 * (w // 16))
+    return w - 6 * (w >= 16), chr(48 + w + 7 * (w >= 10) + 26 * (w >= 16))
 
 
 def hexoctets(d, n, name, sep=''):
@@ -68,18 +68,23 @@ def hex_of(octs, upper=False):
     for x in octs:
         hi = x // 16
         lo = x % 16
-        t = t + chr(48 + hi + k * (hi // 10)) + chr(48 + lo + k * (lo // 10))
+        t = t + chr(48 + hi + k * (hi >= 10)) + chr(48 + lo + k * (lo >= 10))
     return t
 
 
 def dotted(d, shape, name):
-    """canonical dotted quad with the given digit count per octet -> (octets, text)"""
+    """canonical dotted quad with the given digit count per octet (each octet <= 255)
+    -> (octets, text)"""
     vals = []
     t = ''
+    ok = True
     for i, n in enumerate(shape):
         v, s = dec(d, n, '%s%d_' % (name, i), canonical=True)
+        if n == 3:
+            ok = ok & (v <= 255)
         vals.append(v)
         t = t + ('.' if i else '') + s
+    d.assume(ok)
     return vals, t
 
 
@@ -181,7 +186,7 @@ def parse_hex(d, form, n, nd):
 
 
 # ---------------------------------------------------------------------------- 3. dotted IPv4 text
-def check_ip_aux(a, octs, m, port, **ctx):
+def check_ip_aux(a, octs, m, port, iptext=None, **ctx):
     """IP helper fields against integer arithmetic on the denoted numbers"""
     ip = R.ip_number(octs)
     mask, subnet, host, bcast = R.ip_fields(ip, m)
@@ -196,7 +201,9 @@ def check_ip_aux(a, octs, m, port, **ctx):
     if a.addrHost != host:
         raise Violation("ip-host", got=a.addrHost, want=host, m=m, **ctx)
     t = a.addrTuple
-    if len(t) != 2 or t[1] != port or ip_text_of(t[0]) != bytes(octs):
+    if len(t) != 2 or t[1] != port:
+        raise Violation("ip-tuple", got=[str(t[0]), t[1]], **ctx)
+    if (t[0] != iptext) if iptext is not None else (ip_text_of(t[0]) != bytes(octs)):
         raise Violation("ip-tuple", got=[str(t[0]), t[1]], **ctx)
     b = a.addrBroadcastTuple
     if len(b) != 2 or b[1] != port or ip_text_of(b[0]) != bytes(R.number_octets(bcast)):
@@ -217,8 +224,6 @@ def parse_ip(d, shape, masks, pd, nd):
         net, nt = dec(d, nd, 'n')
         text = nt + ':'
     octs, it = dotted(d, shape, 'o')
-    for o in octs:
-        d.assume(o <= 255)
     text = text + it
     if m is not None:
         text = text + '/' + str(m)
@@ -231,9 +236,7 @@ def parse_ip(d, shape, masks, pd, nd):
     a = build(d, lambda: Address(text), valid, text=text)
     if a is not None:
         fields(a, R.REMOTE_STATION if nd else R.LOCAL_STATION, net, octs + R.port_octets(port), text=text)
-        if a.addrTuple[0] != it:
-            raise Violation("ip-tuple-text", got=str(a.addrTuple[0]), text=text)
-        check_ip_aux(a, octs, 32 if m is None else m, port, text=text)
+        check_ip_aux(a, octs, 32 if m is None else m, port, iptext=it, text=text)
     d.reach()
 
 
@@ -305,8 +308,6 @@ def ctor_tuple(d, shape):
         it = None
     else:
         octs, it = dotted(d, shape, 'o')
-        for o in octs:
-            d.assume(o <= 255)
         ip = R.ip_number(octs)
         arg = (it, port)
     want = octs + R.port_octets(port)
@@ -488,20 +489,19 @@ def numbers(d, pool, n, tag):
     """the numbers of one address (digits first, so that the decimal text needs no fork)"""
     N = {}
     N['net'], N['nt'] = dec(d, 5, tag + 'n')
-    d.assume(N['net'] <= R.MAX_NET)
+    ok = N['net'] <= R.MAX_NET
     if pool == "short":
         N['v'], N['vt'] = dec(d, 3, tag + 's')
-        d.assume(N['v'] <= R.MAX_STATION)
+        ok = ok & (N['v'] <= R.MAX_STATION)
         N['octs'] = [N['v']]
     elif pool == "long":
         N['octs'] = [d.int(0, 255, '%so%d' % (tag, i)) for i in range(n)]
     else:
         o, N['it'] = dotted(d, (3, 3, 3, 3), tag + 'o')
-        for x in o:
-            d.assume(x <= 255)
         N['port'], N['pt'] = dec(d, 5, tag + 'p')
-        d.assume(N['port'] <= 65535)
+        ok = ok & (N['port'] <= 65535)
         N['octs'] = o + R.port_octets(N['port'])
+    d.assume(ok)
     return N
 
 
@@ -666,27 +666,27 @@ def junk(d, t, mode):
     else:
         jc = jrep = d.pick(list(INSIDE), 'junk')
     text = ''
-    rep = ''
+    reps = ['', '', '']      # representatives: the grammar only tells digits, '0' (as in 0x) and letters apart
     for idx in range(len(tpl) + 1):
         if idx == pos:
             text = text + jc
-            rep = rep + jrep
+            reps = [r + jrep for r in reps]
         if idx == len(tpl):
             break
         ch = tpl[idx]
         if ch == '#':
             x = d.int(0, 9, 'd%d' % idx)
             text = text + chr(48 + x)
-            rep = rep + '1'
+            reps = [reps[0] + '1', reps[1] + '0', reps[2] + '1']
         elif ch == '%':
             _, g = hexglyph(d, 'h%d' % idx)
             text = text + g
-            rep = rep + 'b'
+            reps = [reps[0] + 'b', reps[1] + '0', reps[2] + '1']
         else:
             text = text + ch
-            rep = rep + ch
-    if R.accepts(rep):
-        # the junk character happened to extend the text into another notation
+            reps = [r + ch for r in reps]
+    if R.accepts(reps[0]) or R.accepts(reps[1]) or R.accepts(reps[2]):
+        # the junk character may extend the text into another notation
         d.reach()
         return
     try:
